@@ -186,42 +186,34 @@ Definition expected (mv : cloc -> N) (opt : cval) (k : call) : cval :=
 
 (* ---- footprints, computed from the program text ---- *)
 
-Definition instr_reads (i : instr) (l : cloc) : bool :=
+Definition instr_rlocs (i : instr) : list cloc :=
   match i with
-  | IReadOpt c => cloc_eqb l (LOpt c)
-  | IMemo m => cloc_eqb l m
-  | IMrRoot o _ | IMrFinish o => cloc_eqb l (LMrNodes o)
-  | IMrId o _ _ | IMrHref o _ => cloc_eqb l (LMrCatalog o)
-  | _ => false
+  | IReadOpt c => [LOpt c]
+  | IMemo m => [m]
+  | IMrRoot o _ | IMrFinish o => [LMrNodes o]
+  | IMrId o _ _ | IMrHref o _ => [LMrCatalog o]
+  | _ => []
   end.
 
-Definition instr_writes (i : instr) (l : cloc) : bool :=
+Definition instr_wlocs (i : instr) : list cloc :=
   match i with
-  | IMemo m => cloc_eqb l m
-  | IWriteTx c => cloc_eqb l (LMsgTx c)
-  | IWriteRx c => cloc_eqb l (LMsgRx c)
-  | IMrResetNodes o | IMrRoot o _ => cloc_eqb l (LMrNodes o)
-  | IMrResetCatalog o | IMrId o _ _ => cloc_eqb l (LMrCatalog o)
-  | ISetOpt c _ => cloc_eqb l (LOpt c)
-  | _ => false
+  | IMemo m => [m]
+  | IWriteTx c => [LMsgTx c]
+  | IWriteRx c => [LMsgRx c]
+  | IMrResetNodes o | IMrRoot o _ => [LMrNodes o]
+  | IMrResetCatalog o | IMrId o _ _ => [LMrCatalog o]
+  | ISetOpt c _ => [LOpt c]
+  | _ => []
   end.
 
 Definition fp_of_code (cd : list instr) : fprint cloc :=
-  Build_fprint (fun l => existsb (fun i => instr_reads i l) cd)
-               (fun l => existsb (fun i => instr_writes i l) cd).
+  Build_fprint (fun l => existsb (cloc_eqb l) (flat_map instr_rlocs cd))
+               (fun l => existsb (cloc_eqb l) (flat_map instr_wlocs cd)).
 
 Definition is_memo_loc (l : cloc) : bool :=
   match l with LResolved _ _ | LFactory _ => true | _ => false end.
 
 Definition call_wf (k : call) : bool := forallb is_memo_loc (c_in k ++ c_out k).
-
-(* the footprint condition of drf_noninterference as a boolean over program
-   texts: what j writes and i reads is a memo cell *)
-Definition mr_objs (cd : list instr) : list N :=
-  flat_map (fun i => match i with
-                     | IMrResetNodes o | IMrResetCatalog o | IMrRoot o _
-                     | IMrId o _ _ | IMrHref o _ | IMrFinish o => [o]
-                     | _ => [] end) cd.
 
 (* ---- running threads under a schedule (used by the harness and by the
    refutation witness) ---- *)
